@@ -32,7 +32,7 @@ CLAIMS = {
         text='Proved in Lean for an arbitrary hash function: getByKey returns the last live message whose key is byte-equal (nil = empty), ErrNotFound if none, ErrNoIndex without the index; consumeByKey returns a non-empty prefix of the live messages with that key, never another key, and ends at NextOffset - on every state with the invariants, and unconditionally after any history from an empty directory (getByKey_ok_run, consumeByKey_ok_run, lookups_ok_runX: the key-hash invariant is established by open and preserved by every step). Correspondence: histories over a key set with nil, empty and real FNV-1a-64 colliding pairs; after every step GetByKey/OffsetByKey for all keys of the set plus absent keys and ConsumeByKey from every cursor offset.',
         note=COMMON_NOTE + 'The radix tree (go-adaptive-radix-tree) is modelled as a map from hash to positions in insertion order (trusted).'),
     'C11': dict(
-        text="Proved in Lean: in every state reached by any history, every index (the file of every segment and every loaded index) lists exactly the offsets and byte positions of its segment's records; removing any subset of index files and reopening with any options keeps the invariant and the content (hence every query result, by the read theorems of C03/C04/C09/C10); a rebuilt index is exactly the derived one. Correspondence: at every close real segment.Find + Segment.Check on every segment, directory listing with sizes/versions, differential reopen with index subsets removed, read-write and read-only, all queries incl. Stat and Delete/Backup on segments without index file.",
+        text="Proved in Lean: in every state reached by any history, every index (the file of every segment and every loaded index) lists exactly the offsets and byte positions of its segment's records; removing any subset of index files and reopening with any options keeps the invariant and the content (hence every query result, by the read theorems of C03/C04/C09/C10); a rebuilt index is exactly the derived one; with the key index configured every index file and loaded index carries exactly the FNV-1a hashes of its segment's keys over any history (index_files_key_hashes), and exactly its segment's message times over any history whose publish times never decrease (index_files_timestamps). Correspondence: at every close real segment.Find + Segment.Check on every segment, directory listing with sizes/versions, differential reopen with index subsets removed, read-write and read-only, all queries incl. Stat and Delete/Backup on segments without index file.",
         note=COMMON_NOTE + "Key hashes / timestamps of index items are covered by the invariants of C09/C10 (KeysInv', TimesInv over reachable histories) and by the byte comparison of Segment.Check at every close."),
     'C12': dict(
         text="Proved in Lean: delete_step - on every state with Inv and every offset set, Delete keeps the invariant and satisfies DeleteOK in all outcomes of the swap (reader: dropped / rebased / same base; head: emptied / tail deleted / reopened): reported messages are live, requested, complete for the chosen segment; the new content is the old minus exactly them; NextOffset unchanged; size = sum of storage sizes; relative offsets rejected; empty set a no-op; delete_lowest (the lowest requested live offset is always removed, so DeleteMulti makes progress), deleteMulti_spec / deleteMulti_complete (DeleteMulti removes exactly the requested live messages, all of them, reports each once, sums the sizes). Correspondence: biased offset sets (last message, whole head, whole reader segment, first of a segment, already deleted, unassigned, negative, everything), DeleteMulti; exact size against the implementation's own directory listing.",
